@@ -21,3 +21,8 @@ CHECKS["C03"] = {
   "text": "Every model-applicable (action, call, state) of the workload is applied by the real Operator under the natural order and under k injected permutations of all set-valued collections of the schema and grounded operator (4 quick / 24 thorough, plus 8 hash seeds in thorough); the serialised successor is re-read independently and must equal the reference successor (delete-then-add, conditions and right-hand sides evaluated in the pre-state, frame unchanged). Workload: add/delete, assign/increase/decrease whose right-hand sides read fluents written by other effects, when with literal/numeric/equality conditions, forall-when over types with subtypes, on covering states. Inconsistent effect sets are outside the quantifier and skipped. Exploration.",
   "note": "Trusts refpddl.successor (validated on shipped planner plans and a STRIPS differential) and that PermSet is a behaviour-preserving set subtype. Sets created and consumed inside one call are only varied by the hash-seed sweep. Fluents of arity <= 2.",
 }
+CHECKS["C07"] = {
+  "technique": "purity contracts (digest of all live objects before/after every API call) + journal replay + multi-threaded runs with sys.monitoring yield injection, all on the real classes",
+  "text": "Pre/post contracts installed on the library's public entry points compare a read-only structural digest of every live object (domains and their schemas, problems, every state handed in or returned so far, module globals, a fresh Domain) before and after each call of random API histories (30-200 calls: ground, is_applicable, apply with every flag combination, re-applying one operator object to earlier and later states, serialize/copy/print, domain/problem/trajectory export, parsing unrelated typed/untyped domains, combining agent files); every call is journalled and replayed later in the same history and must return the same canonical result; thread runs (2-8 threads, yield injection at statement boundaries inside the models package) must reproduce, call by call, the sequential results; thorough also runs the repository's own four test directories under the purity contracts. Exploration.",
+  "note": "Trusts vlib.digest (read-only walk) to capture the value of an object. Thread sequences avoid sympy-backed calls and inconsistent effect sets; sampling under the GIL, no claim for free-threaded builds.",
+}
